@@ -27,6 +27,7 @@ import (
 	"os"
 	"path/filepath"
 	"runtime"
+	"sort"
 	"strconv"
 	"strings"
 	"syscall"
@@ -83,13 +84,14 @@ type c20Event struct {
 	Sys  string   `json:"sys,omitempty"` // open lock stat trunc write unlink close
 	Res  string   `json:"res,omitempty"`
 	Ino  int      `json:"ino,omitempty"`  // inode id of the descriptor the call works on / returns
-	Code int      `json:"code,omitempty"` // exit status, or 128+signal
+	Code int      `json:"code"`           // exit status, or 128+signal
 	Snap *c20Snap `json:"snap,omitempty"`
 }
 
 type c20Obs struct {
 	Events  []c20Event `json:"events"`
 	Skipped int        `json:"skipped"`
+	Settled bool       `json:"settled"` // at the end every process was unstarted, up or gone
 	Error   string     `json:"error"`
 	Pids    []int      `json:"pids"`
 }
@@ -433,7 +435,17 @@ func (r *c20Run) snapshot() *c20Snap {
 			f.Close()
 		}
 	}
-	b, _ := ioutil.ReadFile("/proc/locks")
+	// one read(2) of /proc/locks (a seq_file: several reads are not one consistent view)
+	var b []byte
+	if lf, err := os.Open("/proc/locks"); err == nil {
+		buf := make([]byte, 1<<20)
+		n, _ := syscall.Read(int(lf.Fd()), buf)
+		if n > 0 {
+			b = buf[:n]
+		}
+		lf.Close()
+	}
+	seen := map[[3]int]bool{}
 	for _, ln := range strings.Split(string(b), "\n") {
 		f := strings.Fields(ln)
 		// "1: POSIX  ADVISORY  WRITE 2418 fd:00:1234 0 EOF"   (blocked waiters: "1: -> POSIX ...")
@@ -451,8 +463,23 @@ func (r *c20Run) snapshot() *c20Snap {
 		if f[3] == "WRITE" {
 			w = 1
 		}
-		s.Locks = append(s.Locks, [3]int{r.idOfIno(ino), p.idx, w})
+		ent := [3]int{r.idOfIno(ino), p.idx, w}
+		if !seen[ent] { // the lock table is a set
+			seen[ent] = true
+			s.Locks = append(s.Locks, ent)
+		}
 	}
+	// /proc/locks walks per-CPU lists: the order carries no information
+	sort.Slice(s.Locks, func(a, b int) bool {
+		x, y := s.Locks[a], s.Locks[b]
+		if x[0] != y[0] {
+			return x[0] < y[0]
+		}
+		if x[1] != y[1] {
+			return x[1] < y[1]
+		}
+		return x[2] < y[2]
+	})
 	return s
 }
 
@@ -531,6 +558,10 @@ func (r *c20Run) release(p *c20Proc) error {
 	}
 	p.state = c20Running
 	p.parkKind = ""
+	if kind == "close" {
+		// from here on the descriptor number may be reused by another thread of the tracee
+		p.fd = -1
+	}
 	r.relTid, r.relDone, r.relRval = tid, false, 0
 	r.resume(tid, 0)
 	ok := r.pump(func() bool { return r.relDone }, 20*time.Second)
@@ -831,6 +862,16 @@ func c20RunScenario(t *testing.T, daemon, tmp, token string, i int, sc c20Scenar
 	defer r.cleanup()
 	if err := r.runScript(sc); err != nil {
 		r.obs.Error = err.Error()
+	} else {
+		r.obs.Settled = true
+		for _, p := range r.procs {
+			if p.state != c20Unstarted && p.state != c20Up && p.state != c20Dead {
+				r.obs.Settled = false
+			}
+			if p.state == c20Up && p.termed {
+				r.obs.Settled = false
+			}
+		}
 	}
 	if os.Getenv("VERIF_C20_KEEP") == "" {
 		defer os.RemoveAll(dir)
